@@ -256,6 +256,58 @@ fn run_mixed_batches(cx: &mut CaseCx, case: &Value) {
   cx.outcome(format!("ta={} tb={}", ta, tb));
 }
 
+
+/// boundary search on an internal value at the adss level: sharings whose 16-byte sharing key K (the constant
+/// term, interpolated from t shares) has a 0x00 / 0xff boundary byte or a zero pair must recover like any other
+fn run_boundary_keys(cx: &mut CaseCx, case: &Value) {
+  let t = case["t"].as_u64().unwrap() as u32;
+  let lo = case["lo"].as_u64().unwrap();
+  let m = b"boundary key message".to_vec();
+  let mut found = 0u64;
+  for i in lo..lo + 500 {
+    let r = format!("coins-{}", i).into_bytes();
+    let n = t as usize + 1;
+    let mut shares: Vec<Share> = vec![];
+    for k in 0..n {
+      getrandom::verif::set_group(k as u32 + 1);
+      match share_of(&Commune::new(t, m.clone(), r.clone(), None)) {
+        Ok(s) => shares.push(s),
+        Err(_) => break,
+      }
+    }
+    if shares.len() != n {
+      continue;
+    }
+    let parsed: Vec<rm::AdssShare> = shares.iter().filter_map(|s| rm::parse_adss(&s.to_bytes())).collect();
+    if parsed.len() != n || parsed.iter().any(|p| p.s.y.len() != 1) {
+      continue;
+    }
+    let pts: Vec<(BigUint, BigUint)> = parsed.iter().take(t as usize).map(|p| (p.s.x.clone(), p.s.y[0].clone())).collect();
+    let k = rm::le24(&rm::lagrange_at_zero(&pts))[..16].to_vec();
+    cx.count("keys_examined", 1);
+    if !(k[15] == 0 || k[0] == 0 || k[15] == 0xff || k[0] == 0xff || k[8] == 0 || k.windows(2).any(|w| w == [0, 0])) {
+      continue;
+    }
+    found += 1;
+    cx.nontrivial(fnv(&r) ^ t as u64);
+    for sel in [(0..t as usize).collect::<Vec<_>>(), (0..n).rev().collect(), (1..n).collect()] {
+      let batch: Vec<Share> = sel.iter().map(|&j| shares[j].clone()).collect();
+      cx.eval();
+      cx.count("states", 1);
+      cx.count("transitions", 1);
+      match rec(&batch) {
+        Ok(Ok(c)) if c.get_message() == m => cx.count("boundary_recovered", 1),
+        other => {
+          cx.viol("C16/recover-failed/boundary-key", format!("t={}: {} distinct shares of a sharing whose key K = {} has a zero / 0xff boundary byte do not recover the message: {:?}", t, sel.len(), hex(&k), other.map(|r| r.map(|c| hexs(&c.get_message())))), json!({"t": t, "coins": String::from_utf8_lossy(&r), "sharing_key": hex(&k)}));
+          return;
+        }
+      }
+    }
+  }
+  cx.count("boundary_keys_found", found);
+  cx.outcome("boundary keys recover");
+}
+
 fn run_length_square(cx: &mut CaseCx, case: &Value) {
   let ml = case["ml"].as_u64().unwrap() as usize;
   let t = 2u32;
@@ -455,6 +507,21 @@ pub fn spec() -> PropSpec {
         },
         run: run_mixed_batches,
         min_counts: &[("mixed_rejected", 5000), ("mixed_recovered", 100)],
+      },
+      Check {
+        name: "boundary-keys",
+        rule: "boundary search on an internal value: of 2000 sharings per threshold (t in {1,3}; coins 'coins-<i>') those whose 16-byte key K has a 0x00 / 0xff first, middle or last byte or a zero pair (about 1 in 45): the first t, all t+1 reversed and the last t independent shares recover the message",
+        gen: |_| {
+          let mut v = vec![];
+          for t in [1u64, 3] {
+            for c in 0..4u64 {
+              v.push(json!({"t": t, "lo": c * 500}));
+            }
+          }
+          v
+        },
+        run: run_boundary_keys,
+        min_counts: &[("boundary_keys_found", 30), ("boundary_recovered", 90)],
       },
       Check {
         name: "length-square",
